@@ -67,6 +67,11 @@ Perms(n) == {f \in [1..n -> 1..n] : \A i, j \in 1..n : i # j => f[i] # f[j]}
 BatchCases(n) == { [t |-> "batch", era |-> "2025-03-26", members |-> ms, order |-> ord] :
                      ms \in SeqsUpTo(n), ord \in UNION {Perms(k) : k \in 0..n} }
 BatchSet(n) == {c \in BatchCases(n) : Len(c.order) = NCallsGated(c.members)}
+\* longer batches of notifications and calls (calls released in member order): in-order handling (C03) and the
+\* bookkeeping of ids beyond the first few members
+LongMembers == UNION {[1..k -> {"call", "notif"}] : k \in 4..6}
+IdPerm(n) == [i \in 1..n |-> i]
+LongBatchSet == { [t |-> "batch", era |-> "2025-03-26", members |-> ms, order |-> IdPerm(NCallsGated(ms))] : ms \in LongMembers }
 
 \* ioConn tracks only the CALLS of a batch as unresolved; the reply array is written when the last one is answered
 ExpectedBatch(c) ==
@@ -80,7 +85,12 @@ BatchClauses(c, o) ==
    BatchReplyWhenAllAnswered |-> IF nc = 0 THEN o.flushes = 0
                                  ELSE o.flushes = 1 /\ o.flushAfter = nc /\ ~o.premature,
    BatchReplyComplete |-> (nc > 0 /\ o.flushes = 1) => o.flushSize = nc,
-   BatchNoStrayResponses |-> o.singles = 0]
+   BatchNoStrayResponses |-> o.singles = 0,
+   \* once a batch is complete its ids are free again (C02)
+   BatchIdsReusable |-> o.reuseOk,
+   \* members are handled in batch order: nothing later in the batch starts before an earlier NOTIFICATION's handler
+   \* (calls release the dispatcher before their user handler runs, so two calls' starts are not ordered) (C03)
+   BatchInOrder |-> \A p, q \in DOMAIN o.handled : (p < q /\ o.handled[p] > o.handled[q]) => c.members[o.handled[q]] # "notif"]
 HoldsBatch(c, o) == \A k \in DOMAIN BatchClauses(c, o) : BatchClauses(c, o)[k]
 
 \* ---- streamable HTTP (stateful endpoint): the transport pre-validates, so a request that C02 requires to be
